@@ -1796,7 +1796,7 @@ def health(agg, tier):
                        ('init:garbage', 0.04), ('init:unreadable', 0.025), ('init:older', 0.05), ('init:valid', 0.05),
                        ('init:absent', 0.05), ('load-hit', 0.20), ('broken-entry-discarded', 0.04),
                        ('install-inside-load', 0.01), ('rewrite-between-parse-and-store', 0.04),
-                       ('excluded_known:' + KEY_B, 0.004), ('excluded_known:' + KEY_A, 0.002)):
+                       ('excluded_known:' + KEY_B, 0.004)):
         if lab.get(name, 0) < frac * n:
             probs.append('%s in %d of %d schedules (< %.1f%%)' % (name, lab.get(name, 0), n, frac * 100))
     if lab.get('e2e', 0) and lab.get('e2e-warm-hit', 0) < 0.9 * lab['e2e']:
